@@ -13,7 +13,14 @@ pub struct Bin {
 }
 
 impl Bin {
+    /// The maximum depth of a binning index.
+    pub const MAX_DEPTH: u8 = 10;
+
     /// Calculates the maximum bin ID.
+    ///
+    /// # Panics
+    ///
+    /// This panics if `depth` is greater than [`Self::MAX_DEPTH`].
     ///
     /// # Examples
     ///
@@ -22,7 +29,7 @@ impl Bin {
     /// assert_eq!(Bin::max_id(5), 37449);
     /// ```
     pub const fn max_id(depth: u8) -> usize {
-        bin_limit(depth) as usize
+        bin_limit(depth)
     }
 
     /// Calculates the metadata bin ID.
@@ -77,9 +84,10 @@ impl Bin {
 }
 
 // `CSIv1.pdf` (2020-07-21)
-const fn bin_limit(depth: u8) -> i32 {
-    assert!(depth <= 10);
-    (1 << ((depth + 1) * 3)) / 7
+const fn bin_limit(depth: u8) -> usize {
+    assert!(depth <= Bin::MAX_DEPTH);
+    // `1 << 33` (depth = 10) does not fit in an `i32`.
+    ((1u64 << ((depth as u32 + 1) * 3)) / 7) as usize
 }
 
 #[cfg(test)]
